@@ -10,14 +10,29 @@ META = {
     "design_ref": "5/C41",
     "coq_targets": ["Props/Properties_C41.vo", "Wire/Check.vo"],
     "coq_files": ["Gen/WireConsts.v", "FSTree/Wire.v", "FSTree/WireProofs.v", "Wire/Fast.v", "Wire/Ref.v", "Wire/Check.v",
-                  "Wire/TotalProofs.v", "Wire/EncProofs.v", "Wire/AgreeProofs.v", "Wire/TruncProofs.v",
+                  "Wire/TotalProofs.v", "Wire/SimProofs.v", "Wire/AgreeProofs.v", "Wire/AgreeProofs2.v", "Wire/AgreeProofs3.v", "Wire/TruncProofs.v",
                   "Props/Properties_C41.v"],
     "theorems": [],  # filled below
     "technique": "Coq proof (induction over the field list of a canonical encoding; loop invariants off <= len for the "
                  "bounds-checked model) + differential check of model, reference and real object.Unmarshal on SDK-marshalled "
                  "objects, all their truncations and structured mutations",
-    "level_text": "",
-    "level_note": "",
+    "level_text": "Proved in Coq for ALL byte strings (unbounded lists): none of the modelled fast paths (SeekFieldByNumber/GetLENFieldBounds/"
+                  "GetUint64Field/GetEnumField, GetNonPayloadFieldBounds, GetParentNonPayloadFieldBounds(+Header), GetPayloadLengthHeader, "
+                  "GetTypeHeader, ExtractHeaderAndPayload, the header part of FSTree.ReadObjectParts, readHeaderAndPayload) reaches Panic "
+                  "(out-of-bounds slice, the explicit panic(\"unreachable\"), loop fuel), every returned bound lies inside the buffer, the varint "
+                  "reader stops after ten bytes. Proved for every well-formed encoding (boolean predicate wf_object / wf_header: parses "
+                  "structurally, fields typed and ordered as the stable encoder emits them, singular fields once, non-empty split, type <= MaxInt32): "
+                  "each fast path equals the projection of the full structural decode (last-wins). Proved for any buffers: an answer computed on a "
+                  "prefix that reached the header (bounds) or the payload (ExtractHeaderAndPayload) is the answer on every extension. "
+                  "The model and the reference are tied to the Go code and to the real object.Unmarshal on every run.",
+    "level_note": "partial: (a) truncation is proved in the extension form for decisive answers (header found / payload reached); that a cut at a "
+                  "field boundary before the header yields exactly the fields inside the prefix is checked by the tie only (trunc obligation), not proved; "
+                  "(b) that the canonical encoder model (Ref.v enc_object) always satisfies wf_object is checked by evaluation on every SDK-marshalled "
+                  "object of the run (obligation wf) and by a closed example, not proved for all records; "
+                  "(c) nested proto.Unmarshal/FromProtoMessage of id, signature, header are abstract predicates (real decoders in the tie); groups (wire "
+                  "types 3/4) are outside the reference subset. Modelled, not verified: protowire/iprotobuf primitives on an already sliced buffer, "
+                  "os.File reads, zstd, combined files (C11/C13). Runtime behaviour not modelled: Go slice capacity (buf[:n] is checked against len, "
+                  "stricter than Go), int overflow (lengths < 2^63 assumed).",
     "trusted_base": ["Coq 8.16.1 kernel, vm_compute",
                      "models Wire/Fast.v (fast paths, every Go slice expression bounds-checked with a Panic outcome) and "
                      "Wire/Ref.v (full structural decode, well-formedness, canonical encoder) hand-written, tied by differential check",
@@ -31,10 +46,9 @@ META = {
 
 THEOREMS = [
     "C41_total_seek", "C41_total_bounds", "C41_total_parent", "C41_total_parent_hdr", "C41_total_paylen", "C41_total_type",
-    "C41_total_extract", "C41_total_read_parts", "C41_total_head", "C41_varint_overlong",
-    "C41_encoder_wf", "C41_wf_is_canonical", "C41_roundtrip",
+    "C41_total_extract", "C41_total_read_parts", "C41_total_head", "C41_varint_overlong", "C41_varint_consumes_at_most_10",
     "C41_agree_bounds", "C41_agree_parent", "C41_agree_parent_hdr", "C41_agree_paylen", "C41_agree_type",
-    "C41_agree_extract", "C41_agree_extract_invalid", "C41_agree_read_parts",
+    "C41_agree_extract", "C41_agree_read_parts",
     "C41_trunc_bounds", "C41_trunc_extract", "C41_head_agree",
 ]
 META["theorems"] = THEOREMS
@@ -102,9 +116,10 @@ def run(ctx):
     ctx.prove()
     model = ctx.model_ready(["Wire/Check.vo"])
     if ctx.replay:
+        # cases are a deterministic function of (seed, tier): replay = re-run the same stream
         rp = json.load(open(ctx.replay))
-        seeds = {rp.get("seed", ctx.seed)}
         ctx.seed = rp.get("seed", ctx.seed)
+        ctx.tier = rp.get("tier", ctx.tier)
     lines = ctx.run_json([binp, "run"])
     bases = {l["i"]: l for l in lines if l["k"] == "base"}
     cases = [l for l in lines if l["k"] == "case"]
